@@ -229,6 +229,9 @@ func init() {
 		return IntExp(cur)
 	})
 	reg("hincrbyfloat", 4, func(c *Ctx, a []string) Exp {
+		if infNaN(a[2]) {
+			return AnyErr()
+		}
 		d, ok, unspec := parseFloat(a[2])
 		if unspec {
 			return Unspecified("float argument form")
